@@ -28,6 +28,7 @@ def run(ctx, rep):
     store_compare(prog, rep)
     completion(prog, rep)
     sender(prog, rep)
+    can_receive_priority(ctx.prog, rep)
 
 
 def old_ticks_inert(prog, rep, fn):
@@ -271,3 +272,21 @@ def _const_of(e):
     if e[0] == "c":
         return e[1]
     return None
+
+
+def can_receive_priority(prog, rep):
+    """R1b: while a transfer is in progress its tick decides whether a message is old; the last completed tick is consulted
+    only when nothing is in progress (`current.map(..).or(previous_tick.map(..))`, not the other way round)"""
+    rule = "R1b-can-receive-priority"
+    b = prog.one(R + "can_receive")
+    ir = IR(b)
+    ors = [(bi, t) for bi, t in b.calls() if (t.get("callee") or "") == "std::option::Option::or"]
+    if len(ors) != 1:
+        raise AnchorLost("DeltaReceiver::can_receive is no longer `a.or(b).unwrap_or(..)` (%d calls of Option::or): re-read it" % len(ors))
+    e = ir.call_expr(ors[0][0], ors[0][1])
+    first, second = show(strip_sites(e[2][0])), show(strip_sites(e[2][1]))
+    ok = "self.current" in first and "self.previous_tick" not in first and "self.previous_tick" in second and "self.current" not in second
+    rep.ob(rule, "in-progress transfer first", ok,
+           "can_receive = current.map(c.tick <= tick).or(previous_tick.map(t < tick))" if ok else
+           "can_receive consults `%s` before `%s`: a stray part newer than the last completed tick but older than the transfer in progress is accepted and wipes it"
+           % (first[:60], second[:60]), b.loc())
